@@ -176,6 +176,22 @@ def run(repo, rep, tier):
             "overwrite-before-read over counted loops, from the clang AST).")
 
 
+def written_mutable_defaults(repo, eng):
+    """(function, parameter, effect) for every mutable default argument that the function's own summary writes."""
+    out = []
+    for fi in repo.all_funcs():
+        a = fi.node.args
+        pos = a.posonlyargs + a.args
+        defaults = dict(zip([p.arg for p in pos[len(pos) - len(a.defaults):]], a.defaults))
+        defaults.update({p.arg: d for p, d in zip(a.kwonlyargs, a.kw_defaults) if d is not None})
+        for pname, d in defaults.items():
+            if isinstance(d, (ast.Dict, ast.List, ast.Set, ast.Call)) and not (isinstance(d, ast.Call) and ast.unparse(d.func) in ("float", "int", "str", "tuple", "frozenset")):
+                effs = [e for (r, rp), e in eng.summ[fi.qualname].effects.items() if r == f"p:{pname}"]
+                if effs:
+                    out.append((fi, pname, effs[0]))
+    return out
+
+
 def accessor_state(repo, eng, cls):
     """Shared: derived state kept on a cached accessor class -> list of (file, line, func, construct, why)."""
     out, seen = [], set()
